@@ -291,4 +291,5 @@ _ins("C05", "text", "Tied to the code by",
      "of C01, which is compared with MpqHeader::read on every mutated header). ")
 _rep("C16", "text", "(28/156/148 bytes, what the reader skips). ", "(28/156/148 bytes, what the reader skips); whatever the parser accepts is a normal form (header_parse_normal). ")
 _rep("C14", "text", "(water_entry_fields). ", "(water_entry_fields); the chunk's size is the header table plus exactly the bytes the entries hold, a function of the content alone (water_size_is_content). ")
+_rep("C08", "text", "ascending (listing_is_union); ", "ascending (listing_is_union), and a name is listed exactly when the file map resolves it (listed_iff_found); ")
 
